@@ -79,7 +79,7 @@ CalledExact(cfg, orc, argv, st) ==
 
 (* C06: options not mentioned keep their default (or environment value).   *)
 UntouchedKeepDefault(cfg, orc, argv, st) ==
-  \A o \in 1..NOpts(cfg) : ~GivenOnCli(st, o) => st.store[o] = EnvEffect(cfg, orc, o).val
+  \A o \in 1..NOpts(cfg) : ~GivenOnCli(st, o) => st.store[o] = BaseVal(cfg, orc, o)
 
 (* C12: command line over environment over default.                        *)
 EnvPrecedence(cfg, orc, argv, st) ==
@@ -147,7 +147,7 @@ StoredInOrder(cfg, orc, argv, st) ==
      (Opt(cfg, o).kind \in {"sslice", "islice", "fslice"} /\ OnlySingleOcc(st, o)) =>
         LET occ == SingleOcc(st, o)
             all == Concat([j \in 1..Len(occ) |-> OccTexts(cfg, argv, st, occ[j], o)])
-        IN st.store[o] = ConcatMap(cfg, orc, Opt(cfg, o).kind, all)
+        IN st.store[o] = BaseVal(cfg, orc, o) \o ConcatMap(cfg, orc, Opt(cfg, o).kind, all)
 
 (* C02: map entries: key = text before the first "=", value = everything   *)
 (* after it, a repeated key keeps the last value.                          *)
@@ -163,7 +163,7 @@ MapStored(cfg, orc, argv, st) ==
                          key == Take(all[j], e - 1)
                      IN <<IF cfg.lower THEN LowerTok(key) ELSE key, Drop(all[j], e)>>]
         IN /\ \A j \in 1..Len(all) : FirstIdx(all[j], EQ, 1) # 0
-           /\ MapAsFn(st.store[o]) = MapAsFn(kv)
+           /\ MapAsFn(st.store[o]) = MapAsFn(BaseVal(cfg, orc, o) \o kv)
            /\ \A a, b \in 1..Len(st.store[o]) : a # b => st.store[o][a][1] # st.store[o][b][1]
 
 (* C02: per occurrence min <= consumed <= max, and beyond min intake stops *)
@@ -199,7 +199,7 @@ ScalarExact(cfg, orc, argv, st) ==
         LET occ == SingleOcc(st, o)
             tx  == [j \in 1..Len(occ) |-> OccTexts(cfg, argv, st, occ[j], o)]
             withText == {j \in 1..Len(occ) : tx[j] # <<>>}
-        IN IF withText = {} THEN st.store[o] = EnvEffect(cfg, orc, o).val
+        IN IF withText = {} THEN st.store[o] = BaseVal(cfg, orc, o)
            ELSE LET j == CHOOSE x \in withText : \A y \in withText : y <= x IN
                 /\ Len(tx[j]) = 1
                 /\ st.store[o] = ScalarConv(cfg, orc, o, tx[j][1])
@@ -212,7 +212,7 @@ FlagSemantics(cfg, orc, argv, st) ==
          nocc == Cardinality(UNION {{<<k, j>> : j \in {jj \in 1..Len(st.roles[k].ps) : st.roles[k].ps[jj] = o}} :
                                       k \in 1..Len(argv)})
      IN /\ (Opt(cfg, o).kind = "bool" /\ bare /\ nocc > 0) => st.store[o] = ~Opt(cfg, o).defb
-        /\ (Opt(cfg, o).kind = "incr") => st.store[o] = Opt(cfg, o).defi + nocc
+        /\ (Opt(cfg, o).kind = "incr") => st.store[o] = BaseVal(cfg, orc, o) + nocc
 
 -----------------------------------------------------------------------------
 (* Relational properties: the outcome of a run compared with the outcome   *)
